@@ -1,3 +1,6 @@
+-- Root of the `Simpleline` library: the executable model. The property files `Simpleline/Props/Cxx.lean` (each importing its
+-- own lemma files) are built through the library's glob `Simpleline.+` (see lakefile.toml); they are checked one by one, not
+-- imported together (lemma files of different properties were written independently and reuse helper names).
 import Simpleline.Model.Chars
 import Simpleline.Model.Text
 import Simpleline.Model.Grid
@@ -5,8 +8,6 @@ import Simpleline.Model.Widgets
 import Simpleline.Model.KeyPattern
 import Simpleline.Model.Prompt
 import Simpleline.Model.Paging
-import Simpleline.Props.C11
-import Simpleline.Props.C12
-import Simpleline.Props.C14
-import Simpleline.Props.C15
-import Simpleline.Props.C16
+import Simpleline.Model.Machine
+import Simpleline.Model.Threads
+import Simpleline.Model.GLoop
